@@ -35,6 +35,7 @@ func init() {
 		"fmt.Sprint":             func(in *Interp, fn *ssa.Function, a []Value) Value { return concreteStr("<fmt>") },
 		"fmt.Errorf":             fmtErrorf,
 		"time.Now":               func(in *Interp, fn *ssa.Function, a []Value) Value { return zero(fn.Signature.Results().At(0).Type()) },
+		"time.Sleep":             func(in *Interp, fn *ssa.Function, a []Value) Value { in.runGoroutines(); return nil }, // sleeping lets every started goroutine run to completion
 		"time.Since":             func(in *Interp, fn *ssa.Function, a []Value) Value { return BVConstI(64, 0) },
 		"strings.Repeat": func(in *Interp, fn *ssa.Function, a []Value) Value {
 			s, _ := a[0].(Str).Concrete()
